@@ -579,6 +579,13 @@ func (e *env) corruptionCase(caseID string, s *store, m mutation, mode string) {
 		r.Violate("harness|snapshot", err.Error(), caseID, nil)
 		return
 	}
+	// the refused import leaves no object behind that a freshly initialised database does not have (an index, a table)
+	if extra := e.schemaExtras(path); len(extra) > 0 {
+		detail["schema_objects_left_behind"] = extra
+		r.Violate("refused-import-leaves-schema-objects|"+m.class, fmt.Sprintf("start-up refused the import (%s) and left %v in the database file: later starts (with any file, or none) work on a different schema", clip(res.err.Error(), 120), extra), caseID, detail)
+		return
+	}
+	r.Count("schemas_compared_after_a_refusal", 1)
 	detail["rows_left_by_refused_import"] = len(left)
 	if len(left) > 0 {
 		r.Count("refusals_leaving_rows", 1)
@@ -630,4 +637,50 @@ func (e *env) corruptionCase(caseID string, s *store, m mutation, mode string) {
 		r.Violate("refused-import-leaves-rows|"+m.class+"|"+served,
 			fmt.Sprintf("start-up refused the import (%s), yet a second start on the same database succeeded and serves %s (%d rows)", clip(res.err.Error(), 160), what, len(got)), caseID, detail)
 	}
+}
+
+// schemaObjects lists type:name of everything in sqlite_master.
+func schemaObjects(path string) ([]string, error) {
+	db, err := openRaw(path)
+	if err != nil {
+		return nil, err
+	}
+	defer db.Close()
+	var out []string
+	if err := db.Select(&out, `SELECT type || ':' || name FROM sqlite_master ORDER BY 1`); err != nil {
+		return nil, err
+	}
+	return out, nil
+}
+
+// schemaExtras: objects of the database file that a freshly initialised database (no prepared file) does not have.
+func (e *env) schemaExtras(path string) []string {
+	if e.pristine == nil {
+		removeDB(filepath.Join(e.work, "pristine.db"))
+		st, err := rig.New(rig.Options{Dir: e.work, Name: "pristine.db", NoHTTP: true})
+		if err != nil {
+			return nil
+		}
+		st.Close()
+		objs, err := schemaObjects(st.Path)
+		st.Destroy()
+		if err != nil {
+			return nil
+		}
+		e.pristine = map[string]bool{}
+		for _, o := range objs {
+			e.pristine[o] = true
+		}
+	}
+	objs, err := schemaObjects(path)
+	if err != nil {
+		return nil
+	}
+	var extra []string
+	for _, o := range objs {
+		if !e.pristine[o] {
+			extra = append(extra, o)
+		}
+	}
+	return extra
 }
